@@ -544,7 +544,12 @@ func (rm *room) mutatePL(before map[ref.Key]string, actor user, honest bool) map
 				ev = map[string]any{}
 				out["events"] = ev
 			}
-			ev[sim.Pick(t, []string{"m.room.topic", "m.room.name", "m.room.power_levels", "org.example.thing"})] = level()
+			k := sim.Pick(t, []string{"m.room.topic", "m.room.name", "m.room.power_levels", "org.example.thing", "m.room.message", "m.reaction"})
+			if _, has := ev[k]; has && t.Chance(400) {
+				delete(ev, k) // the type falls back to its default
+			} else {
+				ev[k] = level()
+			}
 		case 4:
 			delete(out, sim.Pick(t, []string{"ban", "kick", "invite", "redact", "events_default", "state_default", "users_default", "events"}))
 		case 5:
@@ -629,8 +634,8 @@ func TestEngine(t *testing.T) {
 			Rule: func(p string) string {
 				return "one run = one room (version drawn as in roomsim) replicated on 2-4 simulated servers, each with its own DAG replica, durable event log, volatile state and map-iteration salt; one seeded event loop of 15-70 steps chooses among: a local user (honest or Byzantine) acts on its server's forward extremities and the PDU is broadcast; the network delivers one in-flight message (any, not the oldest: reorder) with drop / duplicate / byte-corruption faults; a link is cut or healed; a server crashes (unsynced log writes lost, not only a suffix) or restarts (replays its log in log order or in the library's topological order, under a new salt, re-fetching ancestors lost with unsynced writes); fsync; re-fetch of missing ancestors. Invariants after every processed event: the verdict and the state after an event equal what every other replica (and the same server before its restart) reached for that event; every resolution equals the reference resolver's (C10) and survives the C11 re-invocations. After the last fault: heal, restart, bounded drain (<=60 rounds) must leave no event waiting and equal forward extremities and current state on all servers; non-trivial = some event with >=2 prev events was processed; distinct = distinct event-log hash"
 			},
-			Real: []string{"EventBuilder.AddAuthEvents/Build", "NewEventFromUntrustedJSON", "NewEventFromTrustedJSON", "VerifyEventSignatures", "Allowed", "ResolveConflictsNew (+ re-invocations through the other entry points)", "ReverseTopologicalOrdering"},
-			Stub: []string{"the servers' receive / fetch-missing / persist loop (the roomserver the library leaves to its caller)", "network (in-flight queue with drop, duplicate, reorder, corrupt, partition)", "disk (append-only log with unsynced writes)", "key lookup (ledger verifier)", "map iteration order (verifrt salt per server boot)", "reference resolver (oracle)"},
+			Real:        []string{"EventBuilder.AddAuthEvents/Build", "NewEventFromUntrustedJSON", "NewEventFromTrustedJSON", "VerifyEventSignatures", "Allowed", "ResolveConflictsNew (+ re-invocations through the other entry points)", "ReverseTopologicalOrdering"},
+			Stub:        []string{"the servers' receive / fetch-missing / persist loop (the roomserver the library leaves to its caller)", "network (in-flight queue with drop, duplicate, reorder, corrupt, partition)", "disk (append-only log with unsynced writes)", "key lookup (ledger verifier)", "map iteration order (verifrt salt per server boot)", "reference resolver (oracle)"},
 			Assumptions: []string{"a server makes its own event durable before sending it", "a PDU whose content hash does not match is dropped and fetched again rather than kept in redacted form", "per-event Allowed verdicts (C07) are trusted inside the reference resolver", "the pseudo-ID room version is not exercised"},
 		})
 		return
